@@ -358,3 +358,59 @@ Fixpoint received (evs : list agent_ev) : list request :=
   end.
 
 End Exec.
+
+(** * 3. The queue at the level of Go slices
+
+    [receive] / [take] above treat the queue as a value.  The Go code works on slices: [addRequests] is
+    [append(queue, reqs...)], which writes into the backing array of the queue when its capacity allows and allocates a new
+    array otherwise; [getRequests] hands out the slice itself (no copy) and installs [make([]*pb.NodeHostRequest, 0)].  The
+    batch handed out is read by the workers of HandleMasterRequests while the reporter goroutine may already deliver again.
+    A heap is a list of backing arrays (index = allocation number); a slice is (array, length, capacity), offset 0; an array is
+    the list of the cells written so far.  [go_append] is Go's append: cells [len, len+n) are overwritten in place, cells
+    behind them stay; the allocator's rounding up of a new capacity is the arbitrary function [slack].
+    [h_take_reuse] is the variant "reuse the buffer" ([queue = queue[:0]]), only there to show that the refinement theorem
+    (proofs/AgentProofs.v [h_run_refines]) distinguishes the two. *)
+Record slice := mkSl { sl_arr : nat; sl_len : nat; sl_cap : nat }.
+Definition heap := list (list request).
+Definition arr_of (h : heap) (i : nat) : list request := nth i h [].
+Definition view (h : heap) (s : slice) : list request := firstn (sl_len s) (arr_of h (sl_arr s)).
+
+Fixpoint set_arr (h : heap) (i : nat) (c : list request) : heap :=
+  match h, i with
+  | [], _ => []
+  | _ :: t, O => c :: t
+  | x :: t, S i' => x :: set_arr t i' c
+  end.
+
+Definition go_append (slack : nat -> nat) (h : heap) (s : slice) (reqs : list request) : heap * slice :=
+  let n := length reqs in
+  if Nat.leb (sl_len s + n)%nat (sl_cap s)
+  then (set_arr h (sl_arr s)
+                (firstn (sl_len s) (arr_of h (sl_arr s)) ++ reqs ++ skipn (sl_len s + n)%nat (arr_of h (sl_arr s))),
+        mkSl (sl_arr s) (sl_len s + n)%nat (sl_cap s))
+  else (h ++ [view h s ++ reqs], mkSl (length h) (sl_len s + n)%nat (sl_len s + n + slack (sl_len s + n))%nat).
+
+Definition go_make0 (h : heap) : heap * slice := (h ++ [[]], mkSl (length h) 0%nat 0%nat).
+
+Record hagent := mkHA { ha_heap : heap; ha_queue : slice }.
+
+Definition h_receive (slack : nat -> nat) (a : hagent) (reqs : list request) : hagent :=
+  let '(h, q) := go_append slack (ha_heap a) (ha_queue a) reqs in mkHA h q.
+
+Definition h_take (a : hagent) : slice * hagent :=
+  let '(h, q) := go_make0 (ha_heap a) in (ha_queue a, mkHA h q).
+
+(* the variant that recycles the buffer: dc.req.requests = dc.req.requests[:0] *)
+Definition h_take_reuse (a : hagent) : slice * hagent :=
+  (ha_queue a, mkHA (ha_heap a) (mkSl (sl_arr (ha_queue a)) 0%nat (sl_cap (ha_queue a)))).
+
+Fixpoint h_run (tk : hagent -> slice * hagent) (slack : nat -> nat) (a : hagent) (evs : list agent_ev) : hagent * list slice :=
+  match evs with
+  | [] => (a, [])
+  | Recv reqs :: evs' => h_run tk slack (h_receive slack a reqs) evs'
+  | Exec :: evs' =>
+    let '(b, a1) := tk a in
+    let '(a2, bs) := h_run tk slack a1 evs' in (a2, b :: bs)
+  end.
+
+Definition h_init : hagent := mkHA [[]] (mkSl 0%nat 0%nat 0%nat).
